@@ -222,3 +222,62 @@ func lemmaIndentAll(row string, i int, n int) {
 		lemmaIndentAll(row, i+1, n)
 	}
 }
+
+// ---------------------------------------------------------------------------------------------
+// Spellings (C15). What Parse returns for an item row is a function of specIndent, specItemText and the unit (clause
+// `item` above). The two lemmas below say that these do not depend on how the row is spelled: a row made of n equal
+// indent bytes (spaces or tabs), any of the three bullets, one space and the text has indent n and that text; and two
+// rows that spell the same depth d (indent a whole multiple of the row's own unit, quotient d) with their own indent
+// byte, unit and bullet are both accepted and get the same depth and the same text.
+
+//@ lemma markdown.lemmaItemRow
+//@   nowf
+//@   requires rng: 0 <= n && n + 1 < len(row)
+//@   requires ind: forall t int :: {row[t]} 0 <= t && t < n ==> isIndentByte(row[t]) && row[t] == row[0]
+//@   requires bullet: isBullet(row[n]) && row[n+1] == ' '
+//@   use lemma lemmaIndentAll, lemmaUniform
+//@   ensures indent [C15]: specIndent(row) == n
+//@   ensures uniform [C15]: uniformTo(row, n)
+//@   ensures text [C15]: specItemText(row) == drop(row, n + 2)
+//@   trigger specIndent(row), take(row, n)
+func lemmaItemRow(row string, n int) {
+	lemmaIndentAll(row, 0, n)
+	lemmaUniform(row, n)
+}
+
+//@ lemma markdown.lemmaItemDepth
+//@   nowf
+//@   requires rng: 0 <= n && n + 1 < len(row)
+//@   requires ind: forall t int :: {row[t]} 0 <= t && t < n ==> isIndentByte(row[t]) && row[t] == row[0]
+//@   requires bullet: isBullet(row[n]) && row[n+1] == ' '
+//@   requires depth: u >= 1 && n % u == 0 && n / u == d
+//@   requires sep: n == 0 || sep == "" || (len(sep) == 1 && row[0] == sep[0])
+//@   ensures depth [C15]: specDepth(u, row) == d
+//@   ensures shape [C15]: specItemShape(sep, u, row)
+//@   trigger specDepth(u, row), specItemShape(sep, u, row), n / u
+func lemmaItemDepth(row string, n int, u int, sep string, d int) {
+	lemmaItemRow(row, n)
+}
+
+//@ lemma markdown.lemmaSpellings
+//@   nowf
+//@   requires rng1: 0 <= n1 && n1 + 1 < len(row1)
+//@   requires ind1: forall t int :: {row1[t]} 0 <= t && t < n1 ==> isIndentByte(row1[t]) && row1[t] == row1[0]
+//@   requires bullet1: isBullet(row1[n1]) && row1[n1+1] == ' '
+//@   requires rng2: 0 <= n2 && n2 + 1 < len(row2)
+//@   requires ind2: forall t int :: {row2[t]} 0 <= t && t < n2 ==> isIndentByte(row2[t]) && row2[t] == row2[0]
+//@   requires bullet2: isBullet(row2[n2]) && row2[n2+1] == ' '
+//@   requires same: drop(row1, n1 + 2) == drop(row2, n2 + 2)
+//@   requires depth: u1 >= 1 && u2 >= 1 && n1 % u1 == 0 && n2 % u2 == 0 && n1 / u1 == d && n2 / u2 == d
+//@   requires sep1: n1 == 0 || sep1 == "" || (len(sep1) == 1 && row1[0] == sep1[0])
+//@   requires sep2: n2 == 0 || sep2 == "" || (len(sep2) == 1 && row2[0] == sep2[0])
+//@   ensures text [C15]: specItemText(row1) == specItemText(row2)
+//@   ensures depth [C15]: specDepth(u1, row1) == specDepth(u2, row2)
+//@   ensures shape [C15]: specItemShape(sep1, u1, row1) && specItemShape(sep2, u2, row2)
+//@   trigger specItemText(row1), specItemText(row2), specDepth(u1, row1), specDepth(u2, row2), n1 / u1, n2 / u2, specItemShape(sep1, u1, row1), specItemShape(sep2, u2, row2)
+func lemmaSpellings(row1 string, n1 int, u1 int, sep1 string, row2 string, n2 int, u2 int, sep2 string, d int) {
+	lemmaItemRow(row1, n1)
+	lemmaItemRow(row2, n2)
+	lemmaItemDepth(row1, n1, u1, sep1, d)
+	lemmaItemDepth(row2, n2, u2, sep2, d)
+}
